@@ -175,6 +175,90 @@ let handle toks = match toks with
             show_res show_list model ^ " ## " ^ spec
           | _ -> failwith "bad uvec")
      | _ -> failwith "bad uvec/upos")
+  (* ---- remaining routes: model = Axis/Wrappers.v over the generated conversions; specification = the same rule, judged *)
+  | ["s1"; dt; off; p] ->
+    let dt = dec_dbl dt and o = off_of off and p = dec_dbl p in
+    let (x, n, f) = sampled_ctx dt o in
+    let spec = if sampled_dom dt o p then (match spec_scalar x n PositionMatch_GreaterOrEqual p (f p) with
+        | Is (Some i) -> "OK " ^ string_of_z i | Is None -> "ERR" | Any -> "ANY" | Undetermined -> "UNDETERMINED") else "ANY" in
+    show_res string_of_z (sampled_index1 p o dt) ^ " ## " ^ spec
+  | ["s2"; dt; off; s; e] ->
+    let dt = dec_dbl dt and o = off_of off and s = dec_dbl s and e = dec_dbl e in
+    let (_, spec) = pair (sampled_ctx dt o) (sampled_dom dt o s && fis_finite e) s e true in
+    let sp = (match spec with Is (Some (a, b)) -> "OK " ^ string_of_z a ^ " " ^ string_of_z b | Is None -> "ERR" | Any -> "ANY" | Undetermined -> "UNDETERMINED") in
+    show_res (fun (a, b) -> string_of_z a ^ " " ^ string_of_z b) (sampled_pair2 s e dt o) ^ " ## " ^ sp
+  | ("svec2" | "setvec" | "dfvec" | "rvec" | "rvecb" as cmd) :: rest ->
+    let (ctx, domf, conv, rest) = (match cmd, rest with
+        | "svec2", dt :: off :: rest ->
+          let dt = dec_dbl dt and o = off_of off in
+          (sampled_ctx dt o, (fun s e -> sampled_dom dt o s && fis_finite e), (fun s e rm -> sampled_pair s e dt o rm), "incl" :: rest)
+        | "setvec", k :: rest ->
+          let k = oint_of_string k in
+          let labels = OLst.init k (fun _ -> cstr "l") in
+          (set_ctx k, (fun s e -> int_dom s && int_dom e), (fun s e rm -> set_pair s e labels rm labels), rest)
+        | "dfvec", k :: rest ->
+          let k = oint_of_string k in
+          (df_ctx k, (fun s e -> int_dom s && int_dom e), (fun s e rm -> df_pair s e (z_of_int k) rm), rest)
+        | ("rvec" | "rvecb"), k :: rest ->
+          let k = oint_of_string k in
+          let ticks = OLst.map dec_dbl (take k rest) in
+          (range_ctx ticks, (fun s e -> fis_finite s && fis_finite e && k > 0), (fun s e rm -> range_pair s e ticks rm ticks), drop k rest)
+        | _ -> failwith "bad vector route") in
+    let (strict, rest) = if cmd = "rvecb" then (match rest with st :: r -> (Some (st = "1"), r) | [] -> failwith "bad rvecb") else (None, rest) in
+    (match rest with
+     | m :: cnt :: vals ->
+       let incl = mode_incl m in
+       let rm = if incl then RangeMatch_Inclusive else RangeMatch_Exclusive in
+       let n = oint_of_string cnt in
+       let rec prs k l = if k = 0 then [] else (match l with s :: e :: t -> (dec_dbl s, dec_dbl e) :: prs (k - 1) t | _ -> []) in
+       let ps = prs n vals in
+       let surplus = OLst.length vals > 2 * n in
+       let starts = OLst.map fst ps and ends = OLst.map snd ps @ (if surplus then [ofZ Z0] else []) in
+       let raw = vec_overload (fun s e -> conv s e rm) starts ends in
+       let show_list l = string_of_int (OLst.length l) ^ OStr.concat "" (OLst.map (fun v -> " [" ^ show_pair v ^ "]") l) in
+       let show_plain l = string_of_int (OLst.length l) ^ OStr.concat "" (OLst.map (fun (a, b) -> " [" ^ string_of_z a ^ " " ^ string_of_z b ^ "]") l) in
+       let all_or_err l = keep_valid true l in
+       let model = (match cmd, strict with
+           | "svec2", _ -> show_res show_plain (bind raw all_or_err)
+           | "rvecb", Some st -> show_res show_plain (bind raw (keep_valid st))
+           | _ -> show_res show_list raw) in
+       let specs = OLst.map (fun (s, e) -> snd (pair ctx (domf s e) s e incl)) ps in
+       let spec =
+         if surplus then "ERR"
+         else if OLst.exists (fun sp -> sp = Any) specs then "ANY"
+         else if OLst.exists (fun sp -> sp = Undetermined) specs then "UNDETERMINED"
+         else begin
+           let vs = OLst.map (fun sp -> match sp with Is v -> v | _ -> None) specs in
+           match cmd, strict with
+           | "svec2", _ | "rvecb", Some true ->
+             if OLst.exists (fun v -> v = None) vs then "ERR"
+             else "OK " ^ show_plain (OLst.concat_map (fun v -> match v with Some p -> [p] | None -> []) vs)
+           | "rvecb", Some false -> "OK " ^ show_plain (OLst.concat_map (fun v -> match v with Some p -> [p] | None -> []) vs)
+           | _ -> "OK " ^ show_list vs
+         end in
+       model ^ " ## " ^ spec
+     | _ -> failwith "bad vector route")
+  | ("r1" | "r2" | "pinr" as cmd) :: k :: rest ->
+    let k = oint_of_string k in
+    let ticks = OLst.map dec_dbl (take k rest) in
+    let (x, n, f) = range_ctx ticks in
+    (match cmd, drop k rest with
+     | "r1", [p; le] ->
+       let p = dec_dbl p and le = (le = "1") in
+       let m = if le then PositionMatch_LessOrEqual else PositionMatch_GreaterOrEqual in
+       let spec = if fis_finite p && k > 0 then (match spec_scalar x n m p (f p) with
+           | Is (Some i) -> "OK " ^ string_of_z i | Is None -> "ERR" | Any -> "ANY" | Undetermined -> "UNDETERMINED") else "ANY" in
+       show_res string_of_z (range_index_le p ticks le) ^ " ## " ^ spec
+     | "r2", [s; e] ->
+       let s = dec_dbl s and e = dec_dbl e in
+       let (_, spec) = pair (x, n, f) (fis_finite s && fis_finite e && k > 0) s e true in
+       let sp = (match spec with Is (Some (a, b)) -> "OK " ^ string_of_z a ^ " " ^ string_of_z b | Is None -> "ERR" | Any -> "ANY" | Undetermined -> "UNDETERMINED") in
+       show_res (fun (a, b) -> string_of_z a ^ " " ^ string_of_z b) (range_pair2 range_pair2_checks_order_now s e ticks) ^ " ## " ^ sp
+     | "pinr", [p] ->
+       let p = dec_dbl p in
+       let r = (match int_of_z (position_in_range p ticks) with 0 -> "norange" | 1 -> "less" | 2 -> "inrange" | _ -> "greater") in
+       "OK " ^ r ^ " ## " ^ (if fis_nan p then "ANY" else "OK " ^ r)
+     | _ -> failwith "bad range route")
   | ["saxis"; dt; off; count; start] ->
     let dt = dec_dbl dt and o = off_of off in
     let n = oint_of_string count and st = z_of_string start in
